@@ -312,7 +312,7 @@ def run(tier):
     jobs = [(MOD, "job", {"shapes": c, "text": True, "reprs": True}) for c in core.chunks(shapes[::-1], core.NPROC * 6)]
     # the same inputs once more in the opposite order and another chunking: results must not depend on what ran before
     jobs += [(MOD, "job", {"shapes": c, "text": True, "reprs": False}) for c in core.chunks(shapes, core.NPROC * 2 + 1)]
-    core.run_pool(jobs, 0, into=t)
+    core.run_pool(jobs + [("mc.capacity", "job", {"pid": "C09"})], 0, into=t)
     core.run_pool([(MOD, "job", {"shapes": c, "text": False, "reprs": False}) for c in core.chunks(tree.shapes_upto(5), core.NPROC)], 1, into=t)
     cov = {
         "states": t.c["states"], "transitions": t.c["evaluations"], "traces_validated_against_impl": t.c["evaluations"],
@@ -326,5 +326,5 @@ def run(tier):
         "bounds": {"max_nodes": nmax, "shapes": len(shapes)},
     }
     return {"tally": t, "coverage": cov,
-            "guards": ("nontrivial", "childiter_changes_rows", "maxlevel_cuts", "text_renderings", "reprs", "render_reuse_checks"),
+            "guards": ("capacity_checks", "nontrivial", "childiter_changes_rows", "maxlevel_cuts", "text_renderings", "reprs", "render_reuse_checks"),
             "assumptions": ["bounded tree size; styles of equal segment width (as the statement requires)"]}
